@@ -15,6 +15,8 @@ type SupJ struct {
 	Shape []int  `json:"shape"`
 }
 
+var validateCounter = 0
+
 func validateCase(stream string, g *GraphJ, sup []SupJ) *Case {
 	c := &Case{Kind: "validate", Stream: stream, Graph: g, P: map[string]any{"supplied": sup}}
 	c.Impl = guard(func() *Result {
@@ -78,6 +80,27 @@ func validateCase(stream string, g *GraphJ, sup []SupJ) *Case {
 				l = append(l, v)
 			}
 			dimsz[n] = l
+		}
+		// every other case: the model has already completed a Run with an input set that satisfies the
+		// signature (what Run enforces must not depend on earlier Runs)
+		validateCounter++
+		if validateCounter%2 == 0 {
+			warm := gonnx.Tensors{}
+			for _, v := range g.Inputs {
+				sh := []int{}
+				for _, d := range v.Dims {
+					if n, ok := d.(int); ok && n > 0 {
+						sh = append(sh, n)
+					} else {
+						sh = append(sh, 2)
+					}
+				}
+				warm[v.Name] = mkTensor(seqT("f32", sh, func(i int) float64 { return 1 }))
+			}
+			func() {
+				defer func() { recover() }()
+				m.Run(warm)
+			}()
 		}
 		outs, err := m.Run(ins)
 		var r *Result
